@@ -135,7 +135,9 @@ pub fn probe(site: &'static str) {
             return false;
         }
         *s.stats.probe_hits.entry(site).or_insert(0) += 1;
-        if idx == Some(0) && s.cfg.schedule_call_limit > 0 {
+        // the work budget belongs to the thread that runs the pre-screen (the execution's main task): a helper
+        // thread the library might spawn must not be the one that unwinds
+        if idx == Some(0) && s.cfg.schedule_call_limit > 0 && task_id() == 0 {
             s.work += 1;
             if s.work > s.cfg.schedule_call_limit {
                 s.work = 0;
